@@ -173,7 +173,8 @@ bitfieldwidth(struct expr *e)
 static struct expr *
 exprconvert(struct expr *e, struct type *t)
 {
-	if (typecompatible(e->type, t))
+	/* an enumerated type is compatible with its underlying type, but still a different type */
+	if (typecompatible(e->type, t) && (e->type->kind == TYPEENUM) == (t->kind == TYPEENUM))
 		return e;
 	return mkexpr(EXPRCAST, t, e);
 }
